@@ -142,7 +142,21 @@ def run(scn):
             worst = max(diffs, key=diffs.get)
             compared += 1
             if diffs[worst] > min(CAP, TOL * GROWTH ** (compared - 1)):
-                V.append(Violation("gauge-dependent", f"update {a['stage']}{a['step']}: {worst} differs by {diffs[worst]:.3g} (relative) between the two gauges", quantity=worst, step=a["step"], stage=a["stage"], **where))
+                # erratic screening iteration: dozens of iterations whose error bounces instead of
+                # decreasing; the exit iteration (and, because psi advances once per iteration, the
+                # state) is then decided by amplified rounding noise
+                def bounces(e):
+                    return sum(1 for i in range(1, len(e)) if e[i] > e[i - 1])
+
+                erratic = bool(where["screening"] and a["n_screen"] != b["n_screen"] and min(a["n_screen"], b["n_screen"]) >= 60 and min(bounces(a["screen_errs"]), bounces(b["screen_errs"])) >= 10)
+                V.append(
+                    Violation(
+                        "gauge-dependent",
+                        f"update {a['stage']}{a['step']}: {worst} differs by {diffs[worst]:.3g} (relative) between the two gauges"
+                        + (f" (screening took {a['n_screen']} vs {b['n_screen']} erratic iterations)" if erratic else ""),
+                        quantity=worst, step=a["step"], stage=a["stage"], erratic_screening=erratic, **where,
+                    )
+                )
                 break
         lib1, lib2 = base.expected_library_error(h1), base.expected_library_error(h2)
         if lib1 != lib2:
